@@ -67,16 +67,18 @@ Theorem C02_obj_healed : forall (H : bytes -> list N) (s0 : store) (path : list 
 Proof. exact obj_healed_thm. Qed.
 Print Assumptions C02_obj_healed.
 
-(* re-staging after the source changed (t1 staged and transferred, then t2 staged into the same odb):
-   the checkout is the CURRENT tree t2.  Staging in the model hashes the current bytes; that a warm
+(* re-staging after the source changed (t1 staged and transferred, then - s0 being whatever is left
+   of that store: all of it, a part, nothing - t2 staged into the same odb): the checkout is the
+   CURRENT tree t2, also when contents moved between paths.  Staging references are per build.  Staging in the model hashes the current bytes; that a warm
    hash-state cache is transparent is checked by the correspondence on runs with a State (C13 owns
    the cache's soundness theorem). *)
-Theorem C02_restage : forall (H : bytes -> list N) (path : list N) (t1 t2 : wtree),
+Theorem C02_restage : forall (H : bytes -> list N) (path : list N) (t1 t2 : wtree) (s0 : store),
   wf_tree t1 -> wf_tree t2 -> text_tree t2 -> digest_ok H ->
   collision_free (in_play H t1 ++ in_play H t2) ->
-  exists sg1 sg2, stage H path (walk_of (rstrip_sep path) t1) = Ok sg1 /\
-    stage_from H (sg_store sg1) path (walk_of (rstrip_sep path) t2) = Ok sg2 /\
-    checkout (sg_store sg2) (sg_oid sg2) = Ok (sort_by file_leb (files t2)).
+  exists sg1, stage H path (walk_of (rstrip_sep path) t1) = Ok sg1 /\
+    (incl s0 (sg_store sg1) ->
+     exists sg2, stage_from H s0 path (walk_of (rstrip_sep path) t2) = Ok sg2 /\
+       checkout (sg_store sg2) (sg_oid sg2) = Ok (sort_by file_leb (files t2))).
 Proof. exact restage_thm. Qed.
 Print Assumptions C02_restage.
 
